@@ -62,13 +62,35 @@ func gen(p *simrt.Tape) any {
 	default:
 		pl.StartOffset = epoch + time.Duration(p.Intn(int(epoch/time.Millisecond)))*time.Millisecond
 	}
-	startSlot := uint64(pl.StartOffset / slot)
+	// the first epoch of a chain: started before genesis, at genesis or within epoch 0
+	switch p.Pick(8) {
+	case 0:
+		pl.StartOffset = []time.Duration{-slot, 0}[p.Pick(2)]
+	case 1:
+		pl.StartOffset = time.Duration(p.Intn(int(epoch/time.Millisecond))) * time.Millisecond
+	}
+	startSlot := uint64(0)
+	if pl.StartOffset > 0 {
+		startSlot = uint64(pl.StartOffset / slot)
+	}
 	pl.HorizonSlots = startSlot + pl.SlotsPerEpoch*2 + uint64(p.Intn(int(pl.SlotsPerEpoch)))
 	for i := 0; i < 4; i++ {
 		pl.HeadLatencyMs = append(pl.HeadLatencyMs, []int{400, 1000, 3000, 5000}[p.Pick(4)])
 	}
 	if p.Pct(50) {
 		pl.Reorgs = append(pl.Reorgs, syssim.Reorg{Slot: startSlot + 1 + uint64(p.Intn(int(2*pl.SlotsPerEpoch))), Kind: p.Pick(3)})
+	}
+	// attesting takes time (the node answers the attestation data request late), and the subscriber's duties
+	// request of the start-up is answered so late that the epoch's subscription completes while the first
+	// attestation process after the start is under way
+	if p.Pct(30) {
+		attLat := []time.Duration{500 * time.Millisecond, 2 * time.Second}[p.Pick(2)]
+		pl.Faults = map[string][]Outcome{"bn0/AttestationData!": {{Latency: attLat}}}
+		if p.Pct(70) && pl.StartOffset > 0 {
+			next := (pl.StartOffset/slot + 1) * slot
+			at := next + pl.MaxAttestationDelay + []time.Duration{-time.Millisecond, attLat / 2, attLat / 2, attLat + time.Millisecond}[p.Pick(4)]
+			pl.SubDutiesLatency = at - pl.StartOffset
+		}
 	}
 	return pl
 }
@@ -110,9 +132,20 @@ func exec(plan any, sched *simrt.Tape) *sim.Outcome {
 	if out.Violation != nil && os.Getenv("VERIF_DEBUG") != "" {
 		for _, f := range rec.H.Fetches {
 			fmt.Fprintf(os.Stderr, "FETCH inc=%d %s epoch=%d t=%v..%v step=%d..%d err=%v cur=%d n=%d\n", f.Inc, f.Kind, f.Epoch, f.T, f.EndT, f.Step, f.EndStep, f.Err, f.CurSlotAtEnd, len(f.Att))
+			for v := 0; v < 64; v++ {
+				if f.Att[v] == nil {
+					continue
+				}
+				fmt.Fprintf(os.Stderr, "   duty validator=%d slot=%d committee=%d\n", v, f.Att[v].Slot, f.Att[v].CommitteeIndex)
+			}
 		}
 		for _, s := range rec.H.Submissions {
 			fmt.Fprintf(os.Stderr, "SUB inc=%d %s t=%v step=%d\n", s.Inc, s.Kind, s.T, s.Step)
+			if l, ok := s.Obj.([]*apiv1.BeaconCommitteeSubscription); ok {
+				for _, en := range l {
+					fmt.Fprintf(os.Stderr, "   entry validator=%d slot=%d committee=%d aggregator=%v\n", en.ValidatorIndex, en.Slot, en.CommitteeIndex, en.IsAggregator)
+				}
+			}
 		}
 		for _, i := range rec.Invocations {
 			fmt.Fprintf(os.Stderr, "INV inc=%d %s slot=%d vals=%v t=%v step=%d..%d\n", i.Inc, i.Kind, i.Slot, i.Validators, i.T, i.Step, i.EndStep)
@@ -201,6 +234,7 @@ func oracle(rec *syssim.Record, out *sim.Outcome) *simrt.Violation {
 		}
 	}
 	matched := map[*syssim.DutyFetch]bool{}
+	matchedT := map[*syssim.DutyFetch]time.Duration{} // when the first subscription request built from the answer reached the node
 	for _, sub := range rec.H.Subs("BeaconCommitteeSubscriptions") {
 		entries := sub.Obj.([]*apiv1.BeaconCommitteeSubscription)
 		if len(entries) == 0 {
@@ -218,6 +252,9 @@ func oracle(rec *syssim.Record, out *sim.Outcome) *simrt.Violation {
 		}
 		if sub.Node == "bn0" {
 			matched[f] = true
+			if _, ok := matchedT[f]; !ok {
+				matchedT[f] = sub.T
+			}
 		}
 		out.Nontrivial = true
 		have := map[pair]*apiv1.BeaconCommitteeSubscription{}
@@ -306,12 +343,26 @@ func oracle(rec *syssim.Record, out *sim.Outcome) *simrt.Violation {
 					superseded = true
 				}
 			}
-			if superseded || f.EndT+5*time.Second > endOfRun || (inc.End >= 0 && inc.End < f.EndT+5*time.Second) {
+			if late := f.EndT + pl.SubDutiesLatency; superseded || late+5*time.Second > endOfRun || (inc.End >= 0 && inc.End < late+5*time.Second) {
 				continue
 			}
-			cur := slotAt(f.EndT)
+			// (the subscriber asks for the duties itself; when its request is answered late, "the current slot" is the one then)
+			subT := f.EndT + pl.SubDutiesLatency
+			if pl.SubDutiesLatency > 0 {
+				// a reorg between the two answers: the subscriber was told other duties than the controller
+				changed := false
+				for _, r := range pl.Reorgs {
+					if slotStart(r.Slot+1) >= f.T && slotStart(r.Slot) <= subT+slotDur {
+						changed = true
+					}
+				}
+				if changed {
+					continue
+				}
+			}
+			cur := slotAt(subT)
 			margin := uint64(0)
-			if slotStart(cur+1)-f.EndT < 2*time.Second {
+			if slotStart(cur+1)-subT < 2*time.Second {
 				margin = 1 // the request may legitimately straddle the slot boundary
 			}
 			for _, d := range f.Att {
@@ -368,15 +419,20 @@ func oracle(rec *syssim.Record, out *sim.Outcome) *simrt.Violation {
 			continue
 		}
 		e := inv.Slot / pl.SlotsPerEpoch
-		// the subscription info vouch holds stems from the last subscriber duties answer for that epoch before the attestation
+		// "After attesting": the subscription info vouch holds when the attestation process returns stems from the
+		// last subscriber duties answer for that epoch whose subscription request had reached the node at an
+		// earlier instant than that (the info is kept as soon as it has been put together, before it is submitted)
 		var f *syssim.DutyFetch
 		for _, cand := range subFetches[inv.Inc] {
-			if cand.Epoch == e && cand.EndStep < inv.Step {
+			if t, ok := matchedT[cand]; ok && cand.Epoch == e && (cand.EndStep < inv.Step || t < inv.EndT) {
 				f = cand
 			}
 		}
 		if f == nil || !matched[f] {
 			continue
+		}
+		if f.EndStep >= inv.Step {
+			out.Probes["subscription-completed-while-attesting"]++
 		}
 		// if a newer answer was being processed around the attestation, which info is held is not determined
 		ambiguous := false
@@ -385,7 +441,7 @@ func oracle(rec *syssim.Record, out *sim.Outcome) *simrt.Violation {
 				ambiguous = true
 			}
 		}
-		if ambiguous || inv.T > aggT {
+		if ambiguous || inv.T > aggT || inv.EndT >= aggT {
 			continue
 		}
 		aggs := rec.Invs("aggregate")
